@@ -1,6 +1,6 @@
 """C07 — status, message and success describe what actually happened."""
 import runlevel
-MODULES = ["CobyqaVerif.Props.C07", "CobyqaVerif.Props.C07Gen"]
+MODULES = ["CobyqaVerif.Props.C07", "CobyqaVerif.Props.C07Point", "CobyqaVerif.Props.C07Gen"]
 LEVEL = "proof"
 
 
